@@ -38,3 +38,18 @@ Fixpoint while_loop {S : Type} (fuel : nat) (cond : S -> option bool) (body : S 
     | Some true => match body s with None => None | Some s' => while_loop f cond body s' end
     end
   end.
+
+(* a sequence of calls `f(&mut chunk)` with the state carried from call to call; outputs concatenated *)
+Fixpoint calls_loop {S : Type} (step : S -> N -> option (S * N)) (s : S) (chunks : list (list N)) : option (S * list N) :=
+  match chunks with
+  | [] => Some (s, [])
+  | c :: r =>
+    match slice_loop step s c with
+    | None => None
+    | Some (s', o) =>
+      match calls_loop step s' r with
+      | None => None
+      | Some (s'', o') => Some (s'', o ++ o')
+      end
+    end
+  end.
